@@ -20,7 +20,7 @@ type balGate struct {
 
 func getBalanceCall(v ssa.Value) *ssa.Call {
 	gb, ok := core.Unwrap(v).(*ssa.Call)
-	if ok && strings.HasSuffix(core.CalleeName(&gb.Call), ".GetBalance") {
+	if ok && strings.HasSuffix(core.CalleeName(core.NormCall(&gb.Call)), ".GetBalance") {
 		return gb
 	}
 	return nil
@@ -29,10 +29,10 @@ func getBalanceCall(v ssa.Value) *ssa.Call {
 // balanceGate: fact `GetBalance(a,c).Cmp(x) …` meaning balance ≥ x (or > x).
 func balanceGate(f core.Fact) (acct, coin, x ssa.Value, ok bool) {
 	cf, isC := f.AsCall()
-	if !isC || cf.MethodName() != "Cmp" || len(cf.Call.Call.Args) != 2 {
+	if !isC || cf.MethodName() != "Cmp" || len(core.NormCall(&cf.Call.Call).Args) != 2 {
 		return nil, nil, nil, false
 	}
-	gb := getBalanceCall(cf.Call.Call.Args[0])
+	gb := getBalanceCall(core.NormCall(&cf.Call.Call).Args[0])
 	if gb == nil {
 		return nil, nil, nil, false
 	}
@@ -57,13 +57,13 @@ func balanceGate(f core.Fact) (acct, coin, x ssa.Value, ok bool) {
 		return nil, nil, nil, false
 	}
 	gs := &core.Site{Instr: gb, Common: &gb.Call}
-	return gs.Arg(0), gs.Arg(1), cf.Call.Call.Args[1], true
+	return gs.Arg(0), gs.Arg(1), core.NormCall(&cf.Call.Call).Args[1], true
 }
 
 // signGate: fact `Sub(GetBalance(a,c), y).Sign() …` meaning balance − y > 0.
 func signGate(f core.Fact) (g balGate, ok bool) {
 	cf, isC := f.AsCall()
-	if !isC || cf.MethodName() != "Sign" || len(cf.Call.Call.Args) != 1 {
+	if !isC || cf.MethodName() != "Sign" || len(core.NormCall(&cf.Call.Call).Args) != 1 {
 		return g, false
 	}
 	positive := (cf.Op == token.NEQ && cf.Const == 1 && !f.Truth) || (cf.Op == token.EQL && cf.Const == 1 && f.Truth) || (cf.Op == token.GTR && cf.Const == 0 && f.Truth) || (cf.Op == token.LEQ && cf.Const == 0 && !f.Truth)
@@ -71,18 +71,18 @@ func signGate(f core.Fact) (g balGate, ok bool) {
 		return g, false
 	}
 	// the receiver: big.NewInt(0).Sub(balance, y) or a copy of it
-	rest := cf.Call.Call.Args[0]
+	rest := core.NormCall(&cf.Call.Call).Args[0]
 	// in-place form: balance := GetBalance(a,c); available := Set(balance); balance.Sub(available, y)
 	if gb := getBalanceCall(rest); gb != nil {
 		for _, r := range *gb.Referrers() {
 			call, isCall := r.(*ssa.Call)
-			if !isCall || core.CalleeName(&call.Call) != "(*math/big.Int).Sub" || len(call.Call.Args) != 3 || call.Call.Args[0] != ssa.Value(gb) {
+			if !isCall || core.CalleeName(core.NormCall(&call.Call)) != "(*math/big.Int).Sub" || len(core.NormCall(&call.Call).Args) != 3 || core.NormCall(&call.Call).Args[0] != ssa.Value(gb) {
 				continue
 			}
 			// minuend must be (a copy of) the balance itself
 			isCopy := false
-			for _, o := range append([]ssa.Value{call.Call.Args[1]}, core.Origins(call.Call.Args[1])...) {
-				if cp, ok2 := core.Unwrap(o).(*ssa.Call); ok2 && core.CalleeName(&cp.Call) == "(*math/big.Int).Set" && len(cp.Call.Args) == 2 && core.Unwrap(cp.Call.Args[1]) == ssa.Value(gb) {
+			for _, o := range append([]ssa.Value{core.NormCall(&call.Call).Args[1]}, core.Origins(core.NormCall(&call.Call).Args[1])...) {
+				if cp, ok2 := core.Unwrap(o).(*ssa.Call); ok2 && core.CalleeName(core.NormCall(&cp.Call)) == "(*math/big.Int).Set" && len(core.NormCall(&cp.Call).Args) == 2 && core.Unwrap(core.NormCall(&cp.Call).Args[1]) == ssa.Value(gb) {
 					isCopy = true
 				}
 				if core.Unwrap(o) == ssa.Value(gb) {
@@ -91,7 +91,7 @@ func signGate(f core.Fact) (g balGate, ok bool) {
 			}
 			if isCopy && core.Dominates(call, cf.Call) {
 				gs := &core.Site{Instr: gb, Common: &gb.Call}
-				return balGate{acct: gs.Arg(0), coin: gs.Arg(1), x: call.Call.Args[2], rest: gb}, true
+				return balGate{acct: gs.Arg(0), coin: gs.Arg(1), x: core.NormCall(&call.Call).Args[2], rest: gb}, true
 			}
 		}
 	}
@@ -100,21 +100,21 @@ func signGate(f core.Fact) (g balGate, ok bool) {
 		if !isCall {
 			continue
 		}
-		n := core.CalleeName(&call.Call)
-		if n == "(*math/big.Int).Set" && len(call.Call.Args) == 2 {
-			if inner, ok2 := core.Unwrap(call.Call.Args[1]).(*ssa.Call); ok2 {
-				call, n = inner, core.CalleeName(&inner.Call)
+		n := core.CalleeName(core.NormCall(&call.Call))
+		if n == "(*math/big.Int).Set" && len(core.NormCall(&call.Call).Args) == 2 {
+			if inner, ok2 := core.Unwrap(core.NormCall(&call.Call).Args[1]).(*ssa.Call); ok2 {
+				call, n = inner, core.CalleeName(core.NormCall(&inner.Call))
 			}
 		}
-		if n != "(*math/big.Int).Sub" || len(call.Call.Args) != 3 {
+		if n != "(*math/big.Int).Sub" || len(core.NormCall(&call.Call).Args) != 3 {
 			continue
 		}
-		gb := getBalanceCall(call.Call.Args[1])
+		gb := getBalanceCall(core.NormCall(&call.Call).Args[1])
 		if gb == nil {
 			continue
 		}
 		gs := &core.Site{Instr: gb, Common: &gb.Call}
-		return balGate{acct: gs.Arg(0), coin: gs.Arg(1), x: call.Call.Args[2], rest: call}, true
+		return balGate{acct: gs.Arg(0), coin: gs.Arg(1), x: core.NormCall(&call.Call).Args[2], rest: call}, true
 	}
 	return g, false
 }
@@ -157,7 +157,7 @@ func within(p core.CFGPath, x, v ssa.Value, depth int) bool {
 		o = p.Resolve(o)
 		if ex, ok := o.(*ssa.Extract); ok {
 			if call, ok := ex.Tuple.(*ssa.Call); ok && call.Call.IsInvoke() && swapMutators[call.Call.Method.Name()] {
-				for _, a := range call.Call.Args[2:] {
+				for _, a := range core.NormCall(&call.Call).Args[2:] {
 					if within(p, x, a, depth+1) {
 						return true
 					}
@@ -165,8 +165,8 @@ func within(p core.CFGPath, x, v ssa.Value, depth int) bool {
 			}
 		}
 		// a copy: big.NewInt(0).Set(y)
-		if call, ok := o.(*ssa.Call); ok && core.CalleeName(&call.Call) == "(*math/big.Int).Set" && len(call.Call.Args) == 2 {
-			if within(p, x, call.Call.Args[1], depth+1) {
+		if call, ok := o.(*ssa.Call); ok && core.CalleeName(core.NormCall(&call.Call)) == "(*math/big.Int).Set" && len(core.NormCall(&call.Call).Args) == 2 {
+			if within(p, x, core.NormCall(&call.Call).Args[1], depth+1) {
 				return true
 			}
 		}
